@@ -98,8 +98,12 @@ PROPS = {
     "C07": {
         "units": ["U4", "U3"],
         "level": "proof",
-        "witness": [],
-        "sweep": [],
+        "witness": [(r".", "keepalive")],
+        "bounded": [("keepalive", "the wall-clock half of C07 (a Keep Alive at least every 16 s while waiting, timeout Disconnect when the next one is due, Transfer as soon as "
+                     "routing completes) is not a statement about a sequential function: the real Connection::listen runs under tokio's paused clock with discovery / filter / "
+                     "strategy latencies from {0, 5, 21, 37} s, Client Information after {0, 3, 20, 35} s and five echo policies (prompt, delayed 10 s, never, wrong id, duplicate + "
+                     "unsolicited): 1280 schedules, the packet timeline must be exactly the demanded one")],
+        "sweep": ["keepalive"],
         "explanation": "State logic only: keep_alive_id == outstanding(event log) is a verified representation invariant of receive_packet, "
                        "handle_keep_alive and keep_alive; the tick branch sends the localized timeout Disconnect and fails iff an id is outstanding, else "
                        "sends exactly one Keep Alive; receive_packet(false) never sends; handle_keep_alive clears iff the ids are equal. The trace predicate ka_wf "
@@ -123,8 +127,8 @@ PROPS = {
     "C14": {
         "units": ["U9", "U11", "U4", "U3", "U2"],
         "level": "proof",
-        "witness": [(r"max_packet_length|listen|handle", "limits")],
-        "sweep": ["limits"],
+        "witness": [(r"max_packet_length", "limits"), (r"timeout|deadline|socket_wait", "deadline"), (r"listen|handle", "limits")],
+        "sweep": ["limits", "deadline"],
         "explanation": "U11: src/lib.rs start() is extracted whole and verified with the rigid constants *defined* as the fields of its Config argument: the call "
                        "listener.listen(..) carries the obligations that the built Listener holds exactly the configured timeout, maximum frame length, cookie expiry and secret "
                        "(and, for C15, the configured limiter parameters and PROXY settings); Listener::listen (the accept loop) keeps them as loop invariants and calls handle under them. "
@@ -209,8 +213,8 @@ PROPS = {
     "C19": {
         "units": ["U10"],
         "level": "proof",
-        "witness": [(r".", "grpc")],
-        "sweep": ["grpc"],
+        "witness": [(r"select|request|discover", "grpc_wire"), (r".", "grpc")],
+        "sweep": ["grpc", "grpc_wire"],
         "explanation": "The three conversions of proto.rs (Target -> wire Target, wire Target -> Target, wire Address -> SocketAddr) are extracted and verified: "
                        "the wire message carries the identifier and (canonical IP text, port); the way back yields Ok exactly for a present address whose host "
                        "parses as an IP and whose port is <= 65535, with that identifier, IP and port; lemma_round_trip composes the two contracts: every "
@@ -245,7 +249,7 @@ PROPS = {
                        "every pattern compiles and every id parses, and lemma_c18_default_strategy / lemma_c18_player_fill_strategy conclude the property's routing "
                        "statements from these contracts. That Connection::listen routes with select(filter(discover())) is C03 (U3).",
         "not_covered": ["what a regular expression matches (regex crate: regex_match / regex_compile are uninterpreted)", "u32::from_str, Uuid::parse_str as functions of the text (uninterpreted)",
-                        "MetaFilterAdapter::add_rule (builder not used by the configuration path)", "GrpcStrategyAdapter inside DynStrategyAdapter (not a built-in mechanism; its own contract is C19)"],
+                        "GrpcStrategyAdapter inside DynStrategyAdapter (not a built-in mechanism; its own contract is C19)"],
         "assumptions": ["HashMap<String,String>::get behaves like lookup in the finite map of the strings' contents",
                         "String comparisons through references compare contents (lib/strmodel.rs)",
                         "Iterator::any / all / max_by_key / filter / map / collect run the loops R32/R35 write out (max_by_key keeps the last of several maxima)",
@@ -277,8 +281,8 @@ PROPS = {
     "C17": {
         "units": ["U11", "U9"],
         "level": "proof",
-        "witness": [(r".", "shutdown")],
-        "sweep": ["shutdown"],
+        "witness": [(r"no_connection_accepted", "shutdown"), (r".", "drain")],
+        "sweep": ["shutdown", "drain"],
         "explanation": "The accept loop `Listener::listen` is extracted with the polling order of its `select!` kept (R8b): every arm's readiness at a poll is a ghost value of "
                        "the model (`stop.cancelled()` is ready exactly when the token is cancelled, `listener.accept()` when a connection is pending), the arm that runs was ready "
                        "and, with `biased;`, no arm before it in source order was (tokio's documented semantics). Proved for every sequence of polls: a connection is accepted "
